@@ -89,6 +89,7 @@ _DEPTH = re.compile(r'The depth of the complete state graph search is (\d+)')
 _COV = re.compile(r'^<(\w+) line \d+, col \d+ to line \d+, col \d+ of module (\w+)(?: \([\d ]+\))?>: (\d+):(\d+)', re.M)
 _INV = re.compile(r'Error: Invariant (\w+) is violated')
 _ACT = re.compile(r'Error: Action property (\w+) is violated')
+_TEMP = re.compile(r'Error: Temporal property (\w+) was violated')
 _SIMSTATES = re.compile(r'The number of states generated: (\d+)')
 
 
@@ -166,7 +167,8 @@ def _run_once(module, cfg_text, ctx, *, workers=16, simulate=None, depth=None, s
         c[0] += int(d)
         c[1] += int(g)
     res.violated = _INV.findall(out) + _ACT.findall(out)
-    if 'Temporal properties were violated' in out:
+    res.violated += _TEMP.findall(out)            # this TLC names the property; older ones print the plural sentence
+    if 'Temporal properties were violated' in out or _TEMP.search(out):
         res.violated.append('<temporal>')
     res.deadlock = 'Deadlock reached' in out
     res.postcondition_failed = 'POSTCONDITION' in out and 'violated' in out.split('POSTCONDITION', 1)[1][:200] \
